@@ -585,7 +585,7 @@ func vIteU32(c bool, a, b uint32) uint32    { if c { return a }; return b }
 func vIteU64(c bool, a, b uint64) uint64    { if c { return a }; return b }
 func vIteI64(c bool, a, b int64) int64      { if c { return a }; return b }
 func vIteI32(c bool, a, b int32) int32      { if c { return a }; return b }
-func vGoCount(sub string) int    { fmt.Println("REPLAY-UNSUPPORTED vGoCount"); panic(vStop{}) }
+func vGoCount(sub string) int    { return 0 } // natively goroutines really run: harnesses count them through their own stubs
 func vRunSpawned(sub string) int { fmt.Println("REPLAY-UNSUPPORTED vRunSpawned"); panic(vStop{}) }
 var vLastPanic string
 func vCatch(f func()) (panicked bool) {
